@@ -2,6 +2,7 @@ package sim
 
 import (
 	"fmt"
+	"io"
 	"math/big"
 	"time"
 
@@ -61,7 +62,116 @@ func refDelayMs(base, factor, cap int, n int) *big.Int {
 	return v
 }
 
+// c19System: the delays as an application sees them: gaps between refused
+// reconnection attempts of a StreamManager, over several reconnection loops.
+type c19System struct {
+	Loops []int `json:"refusals_per_loop"`
+}
+
+func runC19System(e *Engine, g G, o RunOpt) RunInfo {
+	sc := &c19System{}
+	nl := g.Range("loops", 1, 3)
+	for i := 0; i < nl; i++ {
+		sc.Loops = append(sc.Loops, g.Range("refusals", 1, 18))
+	}
+	e.Horizon = 1 << 62
+	var plan []Dial
+	plan = append(plan, DialAccept)
+	for _, m := range sc.Loops {
+		for i := 0; i < m; i++ {
+			plan = append(plan, DialRefuse)
+		}
+		plan = append(plan, DialAccept)
+	}
+	e.Net.DialPlan = func(n int) Dial {
+		if n < len(plan) {
+			return plan[n]
+		}
+		return DialAccept
+	}
+	up := false
+	e.Run(func() {
+		srv := NewServer(e, SimDomain)
+		srv.Scripts = []NegScript{DefaultNeg()}
+		w := NewCW(e, DefaultClientOpts(), sharedCerts())
+		w.CatchAll()
+		if err := w.Create(); err != nil {
+			return
+		}
+		sm := xmpp.NewStreamManager(w.Client, nil)
+		e.Go("sm.Run", func() { sm.Run() })
+		nEst := func() int {
+			n := 0
+			for _, c := range srv.Conns {
+				if c.Established != "" {
+					n++
+				}
+			}
+			return n
+		}
+		if e.WaitUntilFor("first", time.Minute, func() bool { return nEst() == 1 }) {
+			return
+		}
+		up = true
+		for li := range sc.Loops {
+			e.Sleep(time.Second)
+			cur := srv.Conns[len(srv.Conns)-1]
+			cur.Pipe.Cli.CutAt = cur.End.TotalWritten
+			cur.Pipe.Cli.CutErr = io.EOF
+			if e.WaitUntilFor("back", 2*time.Hour, func() bool { return nEst() == li+2 }) {
+				e.Violate("C19", "system:not-reconnected", "loop %d: no session after %d refusals within 2 h", li, sc.Loops[li])
+				break
+			}
+		}
+		e.Call("Stop", func() error { sm.Stop(); return nil })
+		e.Sleep(time.Minute)
+	})
+	info := RunInfo{Scenario: sc, Nontrivial: up}
+	for _, p := range e.Panics {
+		e.Violate("C19", "system:panic", "%s: %s", p.Where, p.Value)
+	}
+	if !up {
+		e.Probe("precondition_failed")
+		return info
+	}
+	// dial #0 is the first connection; then per loop: m refusals and one accept
+	d := e.Net.DialLog
+	idx := 1
+	for li, m := range sc.Loops {
+		for n := 0; n < m; n++ {
+			if idx+1 >= len(d) {
+				break
+			}
+			gap := d[idx+1].At - d[idx].At
+			ref := time.Duration(refDelayMs(20, 2, 180000, n).Int64()) * time.Millisecond
+			if gap < 0 || gap > ref+time.Millisecond {
+				e.Violate("C19", "system:gap-above-exponential", "reconnection loop %d: the wait after the %s consecutive refusal was %v, min(cap, base*factor^n) = %v", li, ordinal(n+1), gap, ref)
+				return info
+			}
+			idx++
+		}
+		idx++ // the accepted attempt
+	}
+	e.Probe("c19.system_gaps_checked")
+	return info
+}
+
+func ordinal(n int) string {
+	switch n {
+	case 1:
+		return "1st"
+	case 2:
+		return "2nd"
+	case 3:
+		return "3rd"
+	}
+	return fmt.Sprintf("%dth", n)
+}
+
 func runC19(e *Engine, g G, o RunOpt) RunInfo {
+	if g.Pct("in-system", 12) {
+		return runC19System(e, g, o)
+	}
 	sc := &c19Scenario{}
 	sc.Defaults = g.Pct("defaults", 25)
 	if sc.Defaults {
